@@ -57,6 +57,39 @@ MACROS = {
 import ast as _ast
 
 
+class TotalView:
+    """read-only view of a collections.defaultdict(set) for contract evaluation: a key that was never written reads
+    as the empty set and is NOT inserted (the model of `tmap`, DESIGN 11)"""
+
+    def __init__(self, d):
+        self._d = d
+
+    def __getitem__(self, k):
+        return self._d.get(k, frozenset())
+
+    def keys(self):
+        return self._d.keys()
+
+    def __iter__(self):
+        return iter(list(self._d))
+
+    def __eq__(self, o):
+        od = o._d if isinstance(o, TotalView) else o
+        return {k: set(v) for k, v in self._d.items() if v} == {k: set(v) for k, v in od.items() if v}
+
+    def __repr__(self):
+        return 'TotalView(%r)' % dict(self._d)
+
+
+def view_args(c, args):
+    """contract-evaluation view of the arguments: tmap parameters become TotalViews"""
+    out = dict(args)
+    for n, t in c.params.items():
+        if t.replace(' ', '').startswith('tmap[') and n in out and not isinstance(out[n], TotalView):
+            out[n] = TotalView(out[n])
+    return out
+
+
 class _Lazy(_ast.NodeTransformer):
     """implies(a, b) -> (not a) or b, so that b is only evaluated when a holds."""
 
@@ -150,6 +183,51 @@ def runtime_namespace(extra=None):
         m = _re.match(r'^(.*)_block_([0-9]+)$', str(n))
         return bool(m) and m.group(1) == kind and str(int(m.group(2))) == m.group(2)
 
+    def dominates(entries, preds, a, n):
+        """path-based definition, by brute force: every path e = v0 -> ... -> vk = n (k >= 0, e in entries,
+        v_i in preds[v_i+1]) passes a  <=>  a == n, or no entry is met when walking backwards from n without
+        entering a"""
+        if a == n:
+            return True
+        seen, st = set(), [n]
+        while st:
+            x = st.pop()
+            if x in seen or x == a:
+                continue
+            seen.add(x)
+            if x in entries:
+                return False
+            st.extend(preds[x])
+        return True
+
+    def dgfp(entries, preds, nodes, X):
+        """the D-gfp instance, evaluated for real (validates the axiom on every run-time case)"""
+        ns_ = set(nodes)
+        prem = (all(x == e for e in entries if e in X for x in X[e])
+                and all(all(x in X.get(p, ()) for p in preds[n]) for n in ns_ if n not in entries and n in X for x in X[n] if x != n)
+                and all(p in ns_ for n in ns_ for p in preds[n]))
+        return (not prem) or all(dominates(entries, preds, x, n) for n in ns_ if n in X for x in X[n])
+
+    class LazyMap:
+        """tmap(lambda d: S(d)) at run time: compared with a real defaultdict on the keys that dictionary holds and on
+        the `support` names supplied by the contract text through the closure (all other keys read as empty on
+        the dictionary side; the lambda is evaluated there too when the caller subscripts)"""
+
+        def __init__(self, f, support=()):
+            self.f = f
+            self.support = list(support)
+
+        def __getitem__(self, k):
+            return set(self.f(k))
+
+        def keys(self):
+            return ()
+
+        def __eq__(self, o):
+            d = o._d if isinstance(o, TotalView) else o
+            return all(set(self.f(k)) == set(v) for k, v in d.items()) and all(set(self.f(k)) == set(d.get(k, ())) for k in self.support)
+
+    ns.update(dominates=dominates, dgfp=dgfp, tmap=LazyMap, identical=lambda a, b: a == b)
     ns.update(block_name=block_name, region_name=region_name, var_name=var_name, gen_index=gen_index, is_generated=is_generated)
     ns.update(reach1=reach1, implies=implies, distinct=distinct, is_sorted=is_sorted, updated=updated, removed=removed,
               without=without, card=card, get=get, same_elements=same_elements, replace=dataclasses.replace)
